@@ -214,7 +214,7 @@ func execBatch(intents []string, st *Stats) (final, outs, oracle []string) {
 		oracle = append(oracle, fmt.Sprintf("line %d: %s :: [%s] %s", len(final), final[len(final)-1], tag, msg))
 	}
 	// closeSeg: the current internal transaction was committed (by a split or by Flush)
-	closeSeg := func() {
+	closeSeg := func(committed bool) {
 		cur := &s.segs[len(s.segs)-1]
 		n := 0
 		for _, o := range s.ops {
@@ -227,15 +227,20 @@ func execBatch(intents []string, st *Stats) (final, outs, oracle []string) {
 		} else if n > 0 {
 			cur.cts = badger.VerifNextTxnTs(s.db) - 1
 		}
-		cur.committed = true
+		cur.committed = committed
 		s.nsegs++
 		s.segs = append(s.segs, wbSeg{id: s.nsegs})
 	}
 	// apply the committed internal transactions to the expectation, in issue order
-	settle := func() {
+	settle := func(keepOpen bool) {
+		var rest []wbOp
 		for _, o := range s.ops {
 			sg := s.segs[o.seg]
 			if !sg.committed {
+				if keepOpen && o.seg == len(s.segs)-1 {
+					o.seg = 0
+					rest = append(rest, o)
+				}
 				continue
 			}
 			ver := o.rawVer
@@ -246,8 +251,11 @@ func execBatch(intents []string, st *Stats) (final, outs, oracle []string) {
 			s.want[k] = o
 			s.history[k] = append(s.history[k], o)
 		}
-		s.ops = nil
-		s.segs = nil
+		if keepOpen && len(s.segs) > 0 {
+			s.ops, s.segs = rest, []wbSeg{s.segs[len(s.segs)-1]}
+		} else {
+			s.ops, s.segs = nil, nil
+		}
 	}
 	// judge: the database holds, for every (key, version) ever written, the last operation
 	judge := func() {
@@ -327,7 +335,7 @@ func execBatch(intents []string, st *Stats) (final, outs, oracle []string) {
 		case "wb-new":
 			if s.wb != nil {
 				s.wb.Cancel()
-				settle()
+				settle(false)
 			}
 			cts := uint64(0)
 			if len(w) > 2 {
@@ -403,7 +411,7 @@ func execBatch(intents []string, st *Stats) (final, outs, oracle []string) {
 			if after != before {
 				out += " split"
 				st.Inc("split")
-				closeSeg()
+				closeSeg(err == nil) // a commit that failed (sticky error) wrote nothing
 			}
 			if err == nil {
 				s.nops++
@@ -423,16 +431,17 @@ func execBatch(intents []string, st *Stats) (final, outs, oracle []string) {
 			err := s.wb.Flush()
 			_, _ = fin, before
 			if err == nil {
-				closeSeg() // the last internal transaction went through commit()
+				closeSeg(true) // the last internal transaction went through commit()
 			}
 			emit(line, miscErrKind(err))
 			if err == nil {
 				st.Inc(fmt.Sprintf("flush-ok:segs=%d", len(s.segs)-1))
-				settle()
+				settle(false)
 				emit("scan", fmtScan(logicalEnts(s.db)))
 				judge()
 			} else {
 				st.Inc("flush-err")
+				settle(true) // what earlier splits committed stays committed
 			}
 		case "wb-cancel":
 			if s.wb == nil {
@@ -441,7 +450,7 @@ func execBatch(intents []string, st *Stats) (final, outs, oracle []string) {
 			}
 			s.wb.Cancel()
 			emit(line, "ok")
-			settle()
+			settle(false)
 			emit("scan", fmtScan(logicalEnts(s.db)))
 			judge()
 		case "scan":
@@ -545,32 +554,26 @@ func genBatchSession(rng *rand.Rand, st *Stats) []string {
 				if kind == "at" && rng.Intn(3) == 0 {
 					ver = cts
 				}
-				if !free {
-					if ver < lastVer[string(k)] {
-						ver = lastVer[string(k)]
-					}
+				if ver == 0 {
+					explicit = false
 				}
 			}
-			if kind == "managed" && !explicit && !free {
-				ver = uint64(1 + rng.Intn(5))
-				if ver < lastVer[string(k)] {
-					ver = lastVer[string(k)]
+			if managed && !free {
+				// effective version: non-decreasing per key, and one raw spelling per effective
+				// version (raw 0 for the batch's own commit timestamp)
+				eff := ver
+				if !explicit {
+					eff = cts
 				}
-				explicit = true
-			}
-			if !free && kind == "at" && !explicit {
-				// version 0 resolves to cts: keep it contiguous too
-				if lastVer[string(k)] > cts || (lastVer[string(k)] != 0 && lastVer[string(k)] != cts) {
-					ver, explicit = lastVer[string(k)], true
+				if eff < lastVer[string(k)] {
+					eff = lastVer[string(k)]
 				}
-			}
-			if explicit && ver == 0 {
-				explicit = false
-			}
-			if explicit {
-				lastVer[string(k)] = ver
-			} else if kind == "at" {
-				lastVer[string(k)] = cts
+				lastVer[string(k)] = eff
+				if eff == cts {
+					ver, explicit = 0, false
+				} else {
+					ver, explicit = eff, true
+				}
 			}
 			r := rng.Intn(100)
 			switch {
@@ -940,6 +943,8 @@ func execSeq(intents []string, st *Stats) (final, outs, oracle []string) {
 				s.db = nil
 				continue
 			}
+			// recovery turns the replayed memtable into an L0 table in the background: wait for it
+			_ = badger.VerifFlush(s.db)
 			dropObjs()
 			emit(line, "ok")
 		default:
@@ -1173,19 +1178,34 @@ func execMergeop(intents []string, st *Stats) (final, outs, oracle []string) {
 			badger.VerifSyncMarks(s.db)
 			emit(line, miscErrKind(err))
 		case "flush":
+			// the new table's file id comes from the flush event badger reports (mvcc engine)
+			badger.VerifTakeEvents()
 			err := badger.VerifFlush(s.db)
-			emit(line, errKind(err))
+			if err != nil {
+				emit(line, errKind(err))
+				continue
+			}
+			nb := len(final)
+			s.emitEvents(emit, fail)
+			if len(final) == nb {
+				emit("flush id=0", "ok") // empty memtable: nothing was written
+			}
 			emit("dump", s.dump())
 		case "compact", "compact-none":
 			s.compact(kvWords(w[1:]), emit, fail)
 		case "dump":
+			continue
+		case "nextts":
+			emit(line, utoa(badger.VerifNextTxnTs(s.db)))
 			continue
 		case "reopen":
 			// Stop runs one last merge compaction; Close flushes the memtable to level 0
 			s.op.Stop()
 			err := badger.VerifWriteBarrier(s.db)
 			emit("mstop", miscErrKind(err))
+			get("mget")
 			dir := s.dir
+			badger.VerifTakeEvents()
 			if err := s.db.Close(); err != nil {
 				emit(line, "err:close:"+err.Error())
 				s.db = nil
@@ -1198,6 +1218,7 @@ func execMergeop(intents []string, st *Stats) (final, outs, oracle []string) {
 				continue
 			}
 			newOp()
+			s.emitEvents(emit, fail) // Close wrote the memtable out as an L0 table
 			emit(line, "ok")
 			emit("dump", s.dump())
 			emit("nextts", utoa(badger.VerifNextTxnTs(s.db)))
